@@ -13,10 +13,9 @@ def kind_ops(t, res):
     """node kind -> its single operator function (fail closed otherwise)"""
     out = {}
     for kind in typerules.SUPPORTED:
-        ops = t["op_of_kind"].get(kind, [])
-        if not ops:
-            raise Inconclusive("node kind %s is not dispatched to an operator function" % kind)
-        out[kind] = list(ops)
+        if kind not in t["cells_by_kind"]:
+            raise Inconclusive("node kind %s has no operator table" % kind)
+        out[kind] = [kind]      # the table of a node kind is read through the evaluator's arm (optable.cells_by_kind)
     return out
 
 
@@ -30,7 +29,7 @@ def run(res, f, tier):
     discharged = 0
     samples = []
     for kind, fn in sorted((k, fn_) for k, fns in ops.items() for fn_ in fns):
-        cells = t["cells"][fn]
+        cells = t["cells_by_kind"][kind]
         supported = set(typerules.SUPPORTED[kind])
         for combo, outs in sorted(cells.items()):
             if "None" in combo and kind != "Index" or (kind == "Index" and combo[0] == "None"):
